@@ -13,7 +13,7 @@ import subprocess
 import sys
 
 FILES = ["src/r1cs/verifier.rs", "src/r1cs/prover.rs", "src/inner_product_proof.rs", "src/transcript.rs", "src/generators.rs", "src/r1cs/linear_combination.rs", "src/r1cs/proof.rs", "src/util.rs", "src/errors.rs", "src/curve/zorro/g1.rs"]
-MX = "/tmp/mxm"
+MX = os.environ.get("MXDIR", "/tmp/mxm")
 
 
 def candidates(repo):
